@@ -80,7 +80,7 @@ func optsFor(prop string) GenOpts {
 	case "C11":
 		o.PParallel, o.PPred, o.PFallback = 0, 0.6, 0.5
 	case "C15":
-		o.PWrap = 1
+		o.PWrap, o.PBare, o.PShadow = 0.6, 1, 0.3 // not wrapped => bare identifiers (late-read / capture detection)
 	case "C18":
 		o.PEmitters, o.PInstrument, o.PInstrD = 1, 0.7, 0.75
 	case "C04":
@@ -191,7 +191,7 @@ func nonTrivialSpec(prop string, s *rt.Spec) bool {
 	case "C11":
 		return preds+fb > 0
 	case "C15":
-		return s.Wrap && s.NArgs >= 4
+		return (s.Wrap && s.NArgs >= 4) || s.Bare || s.Shadow
 	case "C18":
 		return s.Emitters > 0 && (instr >= 2 || s.EmitNest)
 	case "C07", "C12", "C01", "C09":
@@ -209,6 +209,9 @@ func specLabels(s *rt.Spec) []string {
 	}
 	if s.Shadow {
 		l = append(l, "shadow")
+	}
+	if s.Bare {
+		l = append(l, "bare-identifiers")
 	}
 	if s.Encl != "" {
 		l = append(l, "encl:"+s.Encl)
@@ -422,10 +425,25 @@ func runCase(p *PackageSpec, prop string, scn int, race bool, tag string, replay
 			fail("build", "C20", "modifier-mode output does not compile", o)
 		} else if strings.Contains(o, "vcase/p") || strings.Contains(o, "_gen.go") {
 			fail("build", "C13", "cff succeeded but its output does not compile", o)
+			if prop == "C15" && replayInner != "renamed" {
+				// Metamorphic check for the capture clause of C15: rename the
+				// user's locals (no bare / shadow-named identifiers, everything
+				// else identical). If the renamed package compiles, the names
+				// introduced by generated code captured the user's names.
+				q := renamed(p)
+				if q != nil {
+					if oc2 := runCase(q, prop, 1, false, tag+"r", "renamed"); oc2.fail == nil && oc2.inconclusive == "" {
+						out.fail.Findings = append(out.fail.Findings, rt.Finding{Prop: "C15", Msg: "generated code does not compile when the user's locals are named like identifiers the generated code introduces (" + strings.Join(shadowNames[:6], ", ") + ", ...), but the same programs compile once those locals are renamed: generated identifiers capture or shadow names used in argument expressions"})
+					}
+				}
+			}
 		} else {
 			out.inconclusive = "inner driver build failed: " + tailStr(o, 1500)
 		}
 		return out
+	}
+	if replayInner == "renamed" {
+		return out // build-only probe of the C15 rename check
 	}
 	outDir := filepath.Join(dir, "out")
 	os.MkdirAll(outDir, 0o755)
@@ -643,4 +661,25 @@ func TestBin(t *testing.T) {
 			rt_.Fatalf("package fails %s at stage %s: %s\n%s", prop, oc.fail.Stage, oc.fail.Findings[0].Msg, tailStr(oc.fail.Output, 1500))
 		}
 	})
+}
+
+// renamed returns a copy of the package without bare / shadow-named locals
+// (nil if the package has none).
+func renamed(p *PackageSpec) *PackageSpec {
+	b, _ := json.Marshal(p)
+	var q PackageSpec
+	if json.Unmarshal(b, &q) != nil {
+		return nil
+	}
+	changed := false
+	for _, s := range q.Specs() {
+		if s.Bare || s.Shadow {
+			s.Bare, s.Shadow = false, false
+			changed = true
+		}
+	}
+	if !changed {
+		return nil
+	}
+	return &q
 }
